@@ -5,15 +5,6 @@ use ipc_channel::platform::{self, OsIpcChannel, OsIpcReceiverSet, OsIpcSelection
 use serde_json::json;
 use std::io::BufRead;
 
-fn classify(e: std::io::Error) -> String {
-    match e.raw_os_error() {
-        Some(c) if c == libc::EAGAIN || c == libc::EWOULDBLOCK => "Empty".into(),
-        Some(c) => format!("Errno({})", c),
-        None if e.kind() == std::io::ErrorKind::ConnectionReset => "Disconnected".into(),
-        None => format!("Other({:?})", e.kind()),
-    }
-}
-
 pub fn run() {
     let stdin = std::io::stdin();
     for line in stdin.lock().lines() {
@@ -95,7 +86,7 @@ pub fn run() {
                                 }
                             },
                             Err(e) => {
-                                log.push(json!(classify(std::io::Error::from(e))));
+                                log.push(json!(classify_recv(e)));
                                 done = true;
                             },
                         }
@@ -117,7 +108,7 @@ pub fn run() {
                                 }
                             },
                             Err(e) => {
-                                log.push(json!(classify(std::io::Error::from(e))));
+                                log.push(json!(classify_recv(e)));
                                 break;
                             },
                         }
@@ -125,7 +116,7 @@ pub fn run() {
                     // after everything was read: a connected channel is Empty, a finished one Disconnected
                     let after = match rx.try_recv() {
                         Ok(_) => "Msg".to_string(),
-                        Err(e) => classify(std::io::Error::from(e)),
+                        Err(e) => classify_recv(e),
                     };
                     (log, Some(after))
                 },
@@ -141,7 +132,7 @@ pub fn run() {
         for r in kept.iter() {
             att_state.push(match r.try_recv() {
                 Ok(_) => "Msg".to_string(),
-                Err(e) => classify(std::io::Error::from(e)),
+                Err(e) => classify_recv(e),
             });
         }
         println!(
